@@ -193,6 +193,9 @@ func selftestDeterminism(cfg *supConfig) int {
 	for _, id := range ids {
 		var mu sync.Mutex
 		hashes := map[string]int{}
+		perRun := map[int][]string{}
+		gmps := make([]int, nProc)
+		batchOf := make([]string, nProc)
 		var wg sync.WaitGroup
 		sem := make(chan struct{}, 16)
 		for pi := 0; pi < nProc; pi++ {
@@ -201,13 +204,19 @@ func selftestDeterminism(cfg *supConfig) int {
 			go func(pi int) {
 				defer wg.Done()
 				defer func() { <-sem }()
-				gmp := []int{1, 4, 16}[pi%3]
+				// two thirds of the processes run the way every check runs (GOMAXPROCS=1) and must agree
+				// exactly; one third runs at GOMAXPROCS 4/16 to expose goroutines of the code under test
+				// that are awake at the same time between two seams (reported, not required to agree)
+				gmp := []int{1, 1, 4, 1, 1, 16}[pi%6]
+				gmps[pi] = gmp
 				spec := WorkerSpec{Prop: id, Tier: cfg.Tier, Seed: cfg.Seed, From: 0, To: nRuns, Out: filepath.Join(cfg.WorkDir, fmt.Sprintf("det-%s-%d.json", id, pi)), ReplayDir: filepath.Join(cfg.WorkDir, "replays"), NoShrink: true, DetEvery: 1 << 30}
 				b, _ := json.Marshal(spec)
 				_ = b
-				co := runChildHash(cfg, spec, gmp)
+				co, per := runChildHash(cfg, spec, gmp)
 				mu.Lock()
 				hashes[co]++
+				batchOf[pi] = co
+				perRun[pi] = per
 				mu.Unlock()
 			}(pi)
 		}
@@ -218,11 +227,38 @@ func selftestDeterminism(cfg *supConfig) int {
 		}
 		sort.Strings(keys)
 		status := "OK"
-		if len(keys) != 1 || strings.HasPrefix(keys[0], "ERR") {
-			status = "MISMATCH"
+		strict := map[string]bool{}
+		for pi := 0; pi < nProc; pi++ {
+			if gmps[pi] == 1 {
+				strict[batchOf[pi]] = true
+			}
+		}
+		if len(strict) != 1 || strings.HasPrefix(keys[0], "ERR") {
 			bad++
 		}
-		fmt.Printf("determinism %s: %d processes x %d runs (GOMAXPROCS 1/4/16) -> %d distinct batch hashes %v %s\n", id, nProc, nRuns, len(keys), keys, status)
+		if len(keys) != 1 || strings.HasPrefix(keys[0], "ERR") {
+			status = "schedule-sensitive only at GOMAXPROCS>1 (informational);"
+			if len(strict) != 1 {
+				status = "MISMATCH at GOMAXPROCS=1;"
+			}
+			// which run indices differ between processes?
+			diff := map[int]bool{}
+			for pi := 1; pi < nProc; pi++ {
+				a, b := perRun[0], perRun[pi]
+				for k := 0; k < len(a) && k < len(b); k++ {
+					if a[k] != b[k] {
+						diff[k] = true
+					}
+				}
+			}
+			var idx []int
+			for k := range diff {
+				idx = append(idx, k)
+			}
+			sort.Ints(idx)
+			status += fmt.Sprintf(" differing run indices: %v", idx)
+		}
+		fmt.Printf("determinism %s: %d processes x %d runs (2/3 at GOMAXPROCS 1, 1/3 at 4/16) -> %d distinct batch hashes %v %s\n", id, nProc, nRuns, len(keys), keys, status)
 	}
 	if bad > 0 {
 		return 2
@@ -231,12 +267,12 @@ func selftestDeterminism(cfg *supConfig) int {
 }
 
 // runChildHash runs a worker in hash mode and returns the hash over all per-run event-log hashes.
-func runChildHash(cfg *supConfig, spec WorkerSpec, gomaxprocs int) string {
+func runChildHash(cfg *supConfig, spec WorkerSpec, gomaxprocs int) (string, []string) {
 	os.Setenv("VERIF_HASHMODE", "1")
 	co := runChild(cfg, spec, gomaxprocs)
 	if co.res == nil {
-		return "ERR:" + firstLine(co.stderr, "panic:") + tailOf(co.stderr, 200)
+		return "ERR:" + firstLine(co.stderr, "panic:") + tailOf(co.stderr, 200), nil
 	}
 	h := sha256.Sum256([]byte(co.res.ReplayHash))
-	return hex.EncodeToString(h[:6])
+	return hex.EncodeToString(h[:6]), co.res.RunHashes
 }
